@@ -520,6 +520,22 @@ func C17(c *core.Ctx) {
 			g := core.GateDeep(fn, []ssa.Instruction{ci}, neg(small), neg(present))
 			c.Decide(g.OK && g.PerLit[0] > 0, "R17.3", "mtu-lower-bound:"+core.FuncName(fn), c.Pos(ci), "SetMTU unreachable for an MTU below the minimum", core.FuncName(fn)+" accepts any MTU from the command (no lower bound): an MTU smaller than the link-protocol overhead makes the effective MTU ≤ 0 and the next packet sent on that face divides by zero / allocates a negative fragment count")
 		}
+		// (b2) the decoded 64-bit MTU is converted to int only after it was bounded on the
+		// unsigned value (or it is shown non-negative afterwards): int(2^63) is negative,
+		// passes `< MinMTU`-style refusals made on the unsigned value and min(…, Max) alike
+		for _, ci := range core.FindCalls(fn, core.CalleeID{Pkg: "fw/face", Recv: "*", Name: "SetMTU"}) {
+			_, args := core.CallArgs(ci.Common())
+			if len(args) != 1 {
+				continue
+			}
+			mtuSpec := &core.TaintSpec{SourceField: func(typ, field string) bool { return field == "Mtu" && typ == "ControlArgs" }}
+			ls := mtuSpec.Leaves(args[0])
+			if len(ls) == 0 {
+				continue
+			}
+			v := mtuSpec.Bounded(p, fn, core.Sink{Instr: ci, Kind: "MTU", Val: args[0], Leaves: ls})
+			c.Decide(v.OK, "R17.3", "mtu-conversion-bounded:"+core.FuncName(fn), c.Pos(ci), "the decoded MTU reaches SetMTU only bounded above, the bound taken before the conversion to int", core.FuncName(fn)+": "+v.Reason+" — a face MTU below zero drops every frame (or panics the send path)")
+		}
 		for _, ci := range core.FindCallsDeep(fn, core.CalleeID{Pkg: "fw/table", Name: "SetCsCapacity"}) {
 			big := &core.Atom{Name: "*params.Capacity>max", Match: func(cond ssa.Value) (int, int) {
 				op, x, y, ok := core.Cmp(cond)
